@@ -36,6 +36,11 @@ package cluster
 //                   <nT> { <topic> <parts_ok> <np> { <pid> <leader|-1> <kerror> <noffs> <off>* } }
 //                   <nF> <failing broker>*
 //         rp: the reaper tick after the cycle finds a working ListConsumerGroups; rm: RefreshMetadata returns an error
+//         sc3|sc3x: as sc2 with partition rows { <pid> <leader at refresh|-1> <leader in generateOffsetRequests|-1> <omit>
+//                   <kerror> <noffs> <off>* } and, after the failing brokers, <nX> { <broker> <topic> <pid> <kerror> <noffs>
+//                   <off>* }: Leader may answer differently at its two call sites of a cycle (the scripted client counts
+//                   the Leader calls the refresh makes: one per listed partition up to the first failing Partitions), a
+//                   broker may omit an asked block and add blocks nobody asked for (ClusterMod.xenv).
 // Output: cycles joined by " | "; a cycle is
 //           M<refresh attempted> F<fetchMetadata after> R <b:t:p,..|-> U <t:p:off:count,..|-> D <t,..|-> [X anomalies]
 //         or CRASH (the process died in that cycle) or HANG (the module did not take a tick within 45 s).
@@ -83,7 +88,17 @@ func (t *vcToks) i64() int64 {
 func (t *vcToks) int() int { return int(t.i64()) }
 
 type vcProw struct {
-	leader int64 // -1: Leader() fails
+	leader    int64 // -1: Leader() fails (during the refresh)
+	leaderReq int64 // the same in generateOffsetRequests (sc3: may differ)
+	omit      bool  // the broker's response lacks this block although it was asked
+	kerr      int16
+	offs      []int64
+}
+
+type vcExtra struct {
+	broker int32
+	topic  string
+	part   int32
 	kerr   int16
 	offs   []int64
 }
@@ -102,6 +117,7 @@ type vcEnv struct {
 	topics         []string
 	table          map[string]*vcTrow
 	failing        map[int32]bool
+	extras         []vcExtra
 }
 
 // mayPanic: some scripted answer has ErrNoError and no offsets (timing hint for the child process only)
@@ -111,6 +127,11 @@ func (e *vcEnv) mayPanic() bool {
 			if pr.kerr == 0 && len(pr.offs) == 0 {
 				return true
 			}
+		}
+	}
+	for _, x := range e.extras {
+		if x.kerr == 0 && len(x.offs) == 0 {
+			return true
 		}
 	}
 	return false
@@ -125,7 +146,8 @@ func vcTopicID(s string) int64 {
 	return v
 }
 
-func vcReadEnv(t *vcToks, scripted bool) *vcEnv {
+func vcReadEnv(t *vcToks, format int) *vcEnv {
+	scripted := format >= 2
 	e := &vcEnv{table: map[string]*vcTrow{}, failing: map[int32]bool{}}
 	if scripted {
 		sdv := t.int() // sc2w: the id of a broker that re-registers under a new address before this cycle (0: none)
@@ -148,6 +170,11 @@ func vcReadEnv(t *vcToks, scripted bool) *vcEnv {
 			p := int32(t.i64())
 			pr := &vcProw{}
 			pr.leader = t.i64()
+			pr.leaderReq = pr.leader
+			if format >= 3 {
+				pr.leaderReq = t.i64()
+				pr.omit = t.int() == 1
+			}
 			pr.kerr = int16(t.i64())
 			for no := t.int(); no > 0; no-- {
 				pr.offs = append(pr.offs, t.i64())
@@ -163,6 +190,18 @@ func vcReadEnv(t *vcToks, scripted bool) *vcEnv {
 	}
 	for nF := t.int(); nF > 0; nF-- {
 		e.failing[int32(t.i64())] = true
+	}
+	if format >= 3 {
+		for nX := t.int(); nX > 0; nX-- {
+			x := vcExtra{broker: int32(t.i64())}
+			x.topic = vcTopicName(t.i64())
+			x.part = int32(t.i64())
+			x.kerr = int16(t.i64())
+			for no := t.int(); no > 0; no-- {
+				x.offs = append(x.offs, t.i64())
+			}
+			e.extras = append(e.extras, x)
+		}
 	}
 	return e
 }
@@ -292,6 +331,7 @@ type vcWorld struct {
 	asks        []vcAsk
 	topicsCalls int
 	lcgTokens   int // how many of the next ListConsumerGroups calls succeed
+	refreshLeft int // Leader calls still to come from the running refresh (set by Topics())
 	phase       *sync.Once
 	store       *vcStore
 	cfg         *sarama.Config
@@ -305,6 +345,7 @@ func (w *vcWorld) begin(e *vcEnv) {
 	w.asks = nil
 	w.topicsCalls = 0
 	w.lcgTokens = 0
+	w.refreshLeft = 0
 	w.phase = new(sync.Once)
 }
 
@@ -331,8 +372,17 @@ func (c *vcClient) Topics() ([]string, error) {
 	c.w.mu.Lock()
 	defer c.w.mu.Unlock()
 	c.w.topicsCalls++
+	c.w.refreshLeft = 0
 	if !c.w.env.topicsOK {
 		return nil, errors.New("scripted: topic list failure")
+	}
+	// the refresh asks Leader once per listed partition, topic by topic, and gives up at the first failing Partitions
+	for _, name := range c.w.env.topics {
+		row, ok := c.w.env.table[name]
+		if !ok || !row.ok {
+			break
+		}
+		c.w.refreshLeft += len(row.parts)
 	}
 	return append([]string(nil), c.w.env.topics...), nil
 }
@@ -346,12 +396,24 @@ func (c *vcClient) Partitions(topic string) ([]int32, error) {
 }
 
 func (c *vcClient) Leader(topic string, partitionID int32) (helpers.SaramaBroker, error) {
+	c.w.mu.Lock()
+	defer c.w.mu.Unlock()
+	atRefresh := c.w.refreshLeft > 0
+	if atRefresh {
+		c.w.refreshLeft--
+	}
 	row, ok := c.w.env.table[topic]
 	if ok {
-		if pr, ok := row.rows[partitionID]; ok && pr.leader >= 0 {
-			c.w.mu.Lock()
-			defer c.w.mu.Unlock()
-			id := int32(pr.leader)
+		if pr, ok := row.rows[partitionID]; ok {
+			ld := pr.leaderReq
+			if atRefresh {
+				ld = pr.leader
+			}
+			if ld < 0 {
+				var nilBroker *vcBroker
+				return nilBroker, errors.New("scripted: no leader")
+			}
+			id := int32(ld)
 			b, ok := c.w.brokers[id]
 			if !ok {
 				b = &vcBroker{id: id, w: c.w}
@@ -480,17 +542,34 @@ func (b *vcBroker) GetAvailableOffsets(request *sarama.OffsetRequest) (*sarama.O
 		return nilResp, errors.New("scripted: broker call failure")
 	}
 	resp := &sarama.OffsetResponse{Blocks: map[string]map[int32]*sarama.OffsetResponseBlock{}}
+	put := func(topic string, part int32, blk *sarama.OffsetResponseBlock) {
+		if resp.Blocks[topic] == nil {
+			resp.Blocks[topic] = map[int32]*sarama.OffsetResponseBlock{}
+		}
+		resp.Blocks[topic][part] = blk
+	}
+	type key struct {
+		topic string
+		part  int32
+	}
+	askedKeys := map[key]bool{}
 	for _, a := range asked {
+		askedKeys[key{a.topic, a.part}] = true
 		blk := vcAnswerBlock(request.Version, a.maxN, int16(sarama.ErrUnknownTopicOrPartition), nil)
 		if row, ok := b.w.env.table[a.topic]; ok {
 			if pr, ok := row.rows[a.part]; ok {
+				if pr.omit {
+					continue // the response lacks the block
+				}
 				blk = vcAnswerBlock(request.Version, a.maxN, pr.kerr, pr.offs)
 			}
 		}
-		if resp.Blocks[a.topic] == nil {
-			resp.Blocks[a.topic] = map[int32]*sarama.OffsetResponseBlock{}
+		put(a.topic, a.part, blk)
+	}
+	for _, x := range b.w.env.extras {
+		if x.broker == b.id && !askedKeys[key{x.topic, x.part}] {
+			put(x.topic, x.part, vcAnswerBlock(request.Version, 1, x.kerr, x.offs)) // a block nobody asked for
 		}
-		resp.Blocks[a.topic][a.part] = blk
 	}
 	return resp, nil
 }
@@ -558,10 +637,16 @@ func vcSetupConfig() {
 func vcParse(line string, caseNo int) *vcScn {
 	tk := &vcToks{f: strings.Fields(line)}
 	sc := &vcScn{kind: tk.next()}
-	scripted := strings.HasPrefix(sc.kind, "sc2")
-	if !scripted && sc.kind != "scn" && sc.kind != "scnx" {
+	format := 1
+	switch {
+	case strings.HasPrefix(sc.kind, "sc2"):
+		format = 2
+	case strings.HasPrefix(sc.kind, "sc3"):
+		format = 3
+	case sc.kind != "scn" && sc.kind != "scnx":
 		panic("unknown case kind in " + line)
 	}
+	scripted := format >= 2
 	if scripted {
 		sc.kv = tk.int()
 		if sc.kv < 0 || sc.kv >= len(vcKafkaVersions) {
@@ -570,7 +655,7 @@ func vcParse(line string, caseNo int) *vcScn {
 	}
 	n := tk.int()
 	for i := 0; i < n; i++ {
-		sc.envs = append(sc.envs, vcReadEnv(tk, scripted))
+		sc.envs = append(sc.envs, vcReadEnv(tk, format))
 	}
 	if tk.i != len(tk.f) {
 		panic("trailing tokens in " + line)
@@ -918,7 +1003,7 @@ func TestVerifProbeCluster(t *testing.T) {
 	for i, line := range lines {
 		switch {
 		case parallel(line):
-		case strings.HasPrefix(line, "scnx ") || strings.HasPrefix(line, "sc2x "):
+		case strings.HasPrefix(line, "scnx ") || strings.HasPrefix(line, "sc2x ") || strings.HasPrefix(line, "sc3x "):
 			results[i] = vcRunChild(t, line, i)
 		default:
 			s := vcParse(line, i)
